@@ -33,7 +33,14 @@ EV = F(1602176634, 10 ** 21)     # erg per eV (exact, SI 2019)
 # name -> model descriptor (Synphot.Params.QUnit); the astropy unit is built from the name in `aunit`
 UNITS = {
     'AA': {'k': 'length', 's': F(1)}, 'nm': {'k': 'length', 's': F(10)}, 'micron': {'k': 'length', 's': F(10 ** 4)},
-    'm': {'k': 'length', 's': F(10 ** 10)},
+    'm': {'k': 'length', 's': F(10 ** 10)}, 'pm': {'k': 'length', 's': F(1, 100)}, 'mm': {'k': 'length', 's': F(10 ** 7)},
+    'cm': {'k': 'length', 's': F(10 ** 8)},
+    'kHz': {'k': 'freq', 's': F(10 ** 3)}, 'MHz': {'k': 'freq', 's': F(10 ** 6)}, 'GHz': {'k': 'freq', 's': F(10 ** 9)},
+    'PHz': {'k': 'freq', 's': F(10 ** 15)},
+    '1/cm': {'k': 'wavenumber', 's': F(1, 10 ** 8)}, '1/m': {'k': 'wavenumber', 's': F(1, 10 ** 10)},
+    '1/AA': {'k': 'wavenumber', 's': F(1)},
+    'keV': {'k': 'energy', 's': EV * 10 ** 3}, 'MeV': {'k': 'energy', 's': EV * 10 ** 6}, 'erg': {'k': 'energy', 's': F(1)},
+    'J': {'k': 'energy', 's': F(10 ** 7)},
     'Hz': {'k': 'freq', 's': F(1)}, 'THz': {'k': 'freq', 's': F(10 ** 12)},
     '1/micron': {'k': 'wavenumber', 's': F(1, 10 ** 4)},
     'eV': {'k': 'energy', 's': EV},
@@ -46,8 +53,9 @@ UNITS = {
     'erg/s/cm2': {'k': 'irradiance', 's': F(1)}, 'W/m2': {'k': 'irradiance', 's': F(1000)},
     's': {'k': 'other'}, 'deg_C': {'k': 'other'},
 }
-WAVE_UNITS = ['AA', 'nm', 'micron', 'm', 'Hz', 'THz', '1/micron']
-WAVE_EXTRA = ['eV']
+WAVE_UNITS = ['AA', 'pm', 'nm', 'micron', 'mm', 'cm', 'm', 'Hz', 'kHz', 'MHz', 'GHz', 'THz', 'PHz',
+              '1/micron', '1/cm', '1/m', '1/AA', 'eV', 'keV', 'MeV', 'erg', 'J']
+WAVE_EXTRA = []
 FLUX_UNITS = ['PHOTLAM', 'FLAM', 'FNU', 'Jy', 'mJy', 'PHOTNU', 'ABmag', 'STmag']
 BAD_SOURCE_FLUX = ['count', 'OBMAG', 'VEGAMAG', 'AA', 'one', 'K']
 MAGS = {'ABmag', 'STmag'}
@@ -62,7 +70,8 @@ def aunit(name):
     from synphot import units
     special = {'PHOTLAM': units.PHOTLAM, 'FLAM': units.FLAM, 'FNU': units.FNU, 'PHOTNU': units.PHOTNU,
                'ABmag': u.ABmag, 'STmag': u.STmag, 'OBMAG': units.OBMAG, 'VEGAMAG': units.VEGAMAG,
-               'one': u.dimensionless_unscaled, '1/micron': u.micron ** -1,
+               'one': u.dimensionless_unscaled, '1/micron': u.micron ** -1, '1/cm': u.cm ** -1, '1/m': u.m ** -1,
+               '1/AA': u.AA ** -1,
                'erg/s/cm2': u.erg / u.s / u.cm ** 2, 'W/m2': u.W / u.m ** 2}
     return special[name] if name in special else u.Unit(name)
 
@@ -301,7 +310,9 @@ def impl_call(case):
         nat = case.get('native')
         if sp is not None and nat:
             res['native'] = guarded(lambda: native_samples(sp, [O.fl(x) for x in nat['xs']], nat['unit']))
-        if sp is not None and case.get('gaussflux') and O.fl(case['z']) == 0:
+        # the analytic integral is requested through the default sampling set (mean +- 5 sigma), which is refused
+        # when it reaches non-positive wavelengths (C13's subject): only features narrower than a third of the centre
+        if sp is not None and case.get('gaussflux') and O.fl(case['z']) == 0 and case.get('cond', 1.0) > 3:
             res['integral'] = guarded(lambda: sp.integrate(integration_type='analytical').value)
     return res
 
@@ -325,7 +336,17 @@ def _scale(samples):
     return 0.0
 
 
-def compare_obs(obs, mo, what):
+PRTOL = 1e-12        # stored parameters against the exact conversion
+
+
+def sample_tol(case):
+    """relative tolerance of sampled values: 1e-9, widened by the conditioning of the profile - a feature of
+    relative width 1/cond turns the implementation's few-ulp rounding of its centre / of x/(1+z) into a relative
+    change of ~1e-15 * cond of the sampled value (stored parameters are compared separately at PRTOL)"""
+    return 1e-9 + 1e-14 * float(case.get('cond', 1.0))
+
+
+def compare_obs(obs, mo, what, stol=1e-9):
     """an observed implementation object against the model's object"""
     if 'err' in obs or 'err' in mo['built']:
         if obs.get('err') != mo['built'].get('err'):
@@ -338,13 +359,13 @@ def compare_obs(obs, mo, what):
         for n, mv in b['params'].items():
             if n not in o['params']:
                 return '%s: parameter %s missing on the implementation' % (what, n)
-            r = same(o['params'][n], mv, rtol=1e-9, path='%s.%s' % (what, n))
+            r = same(o['params'][n], mv, rtol=PRTOL, path='%s.%s' % (what, n))
             if r:
                 return r
-    return same(o['samples'], mo['samples'], rtol=1e-9, atol=1e-12 * _scale(o['samples']), path=what + '.samples')
+    return same(o['samples'], mo['samples'], rtol=stol, atol=(stol - 1e-9 + 1e-12) * _scale(o['samples']), path=what + '.samples')
 
 
-def compare_pair(a, b, what):
+def compare_pair(a, b, what, stol=1e-9):
     """two implementation objects (plain floats)"""
     if 'err' in a or 'err' in b:
         if a.get('err') != b.get('err'):
@@ -352,8 +373,8 @@ def compare_pair(a, b, what):
         return None
     x, y = a['ok'], b['ok']
 
-    def close(u, v, atol=0.0):
-        return abs(u - v) <= 1e-9 * max(abs(u), abs(v)) + atol
+    def close(u, v, atol=0.0, rtol=PRTOL):
+        return abs(u - v) <= rtol * max(abs(u), abs(v)) + atol
     for n, pv in y['params'].items():
         if x['unit'] == 'quantity' or y['unit'] == 'quantity':
             break
@@ -366,19 +387,20 @@ def compare_pair(a, b, what):
             return 'samples-error:%s' % sx.get('err', sy.get('err')), '%s: sampling %s vs %s' % (
                 what, sx.get('err', 'ok'), sy.get('err', 'ok'))
         return None
-    atol = 1e-12 * max(_scale(sx), _scale(sy))
+    atol = (stol - 1e-9 + 1e-12) * max(_scale(sx), _scale(sy))
     for s, t in zip(sx['ok'], sy['ok']):
-        if not close(s, t, atol):
+        if not close(s, t, atol, stol):
             return 'samples', '%s: sample %r vs %r' % (what, s, t)
     return None
 
 
 def compare(case, out, mo):
-    r = compare_obs(out['Q'], mo, 'quantities')
+    stol = sample_tol(case)
+    r = compare_obs(out['Q'], mo, 'quantities', stol)
     if r:
         return r
     if 'N' in out:
-        r = compare_pair(out['Q'], out['N'], 'from quantities vs from the numbers the model converts them to')
+        r = compare_pair(out['Q'], out['N'], 'from quantities vs from the numbers the model converts them to', stol)
         if r:
             return r[1]
     return None
@@ -394,7 +416,8 @@ def oracle(rep, case, out):
             rep.oracle_fail('reject:%s:%s:%s' % (case['tag'], exp, Q.get('err', 'accepted')),
                             'expected %s, got %s' % (exp, Q.get('err', 'an object')), case, Q)
         return
-    r = compare_pair(Q, out['H'], 'object from quantities vs object from numbers converted by the harness')
+    stol = sample_tol(case)
+    r = compare_pair(Q, out['H'], 'object from quantities vs object from numbers converted by the harness', stol)
     if r:
         rep.oracle_fail('quantity_vs_number:%s:%s:%s' % (cls, model, r[0]), r[1], case, Q)
         return
@@ -413,9 +436,9 @@ def oracle(rep, case, out):
                 want = [got['ok'][0]] * len(got['ok'])
             else:
                 want = [O.fl(x) for x in nat['expect']]
-            floor = 1e-12 * max([abs(w) for w in want] + [0.0])      # a table value of exactly 0 next to non-zero ones
+            floor = (stol - 1e-9 + 1e-12) * max([abs(w) for w in want] + [0.0])   # a table value of exactly 0 next to non-zero ones
             for g, w in zip(got['ok'], want):
-                if not abs(g - w) <= 1e-9 * abs(w) + (1e-9 if mag else floor):
+                if not abs(g - w) <= stol * abs(w) + (stol if mag else floor):
                     rep.oracle_fail('native:%s:%s:value' % (model, nat['what']),
                                     'in %s: got %r, expected %r' % (nat['unit'], g, w), case, got)
                     break
@@ -426,12 +449,12 @@ def oracle(rep, case, out):
         sigma = w / (2 * math.sqrt(2 * math.log(2)))
         peak = F_ / (sigma * math.sqrt(2 * math.pi)) * m / (HF * CF)
         for name, got, want in (('sigma', p['stddev'][0], sigma), ('peak', p['amplitude'][0], peak)):
-            if not abs(got - want) <= 1e-9 * abs(want):
+            if not abs(got - want) <= PRTOL * abs(want):
                 rep.oracle_fail('gaussflux:%s' % name, '%s is %r, closed form %r' % (name, got, want), case, Q)
         integ = out.get('integral')
         if integ is not None:
             want = F_ * m / (HF * CF)
-            if 'err' in integ or not abs(integ['ok'] - want) <= 1e-9 * abs(want):
+            if 'err' in integ or not abs(integ['ok'] - want) <= PRTOL * abs(want):
                 rep.oracle_fail('gaussflux:integral', 'photon integral %r, closed form F m / (h c) = %r' % (integ, want), case, Q)
 
 
@@ -477,7 +500,7 @@ def pick_units(rng, names, kinds, cls, model, focus=None, focus_unit=None, p_uni
             continue
         k = kinds[n]
         if k in ('wave', 'own'):
-            out[n] = rng.choice(WAVE_UNITS + (WAVE_EXTRA if rng.random() < 0.1 else []))
+            out[n] = rng.choice(WAVE_UNITS)
         elif k == 'flux':
             out[n] = ('PHOTLAM' if model == 'Const1D' else rng.choice(FLUX_UNITS)) if cls == 'source' \
                 else rng.choice(DIMLESS_UNITS)
@@ -521,8 +544,16 @@ def gen_case(rng, K, BB, model, cls, z, names, focus=None, focus_unit=None, ntab
     units = pick_units(rng, names, kinds, cls, model, focus, focus_unit)
     ref = CLASSES[model][0]
     zf = float(z)
-    refaa = dyf(rng, 1000, 20000, 2)
-    width = dyf(rng, 10, refaa / 6, 3)
+    # wavelength regime: optical with ordinary widths (dyadic values), or anywhere from gamma rays to radio with
+    # features from 1e-9 of the centre up to the centre itself
+    wide = rng.random() < 0.6 and not model.startswith('BlackBody')
+    if wide:
+        refaa = 10 ** rng.uniform(-3, 9)
+        width = refaa * 10 ** rng.uniform(-9, 0)
+    else:
+        refaa = dyf(rng, 1000, 20000, 2)
+        width = dyf(rng, 10, refaa / 6, 3)
+    cond = 1.0
     args = {}
     case = {'op': 'c15_build', 'cls': cls, 'z': q(z), 'model': model, 'n_models': 1, 'keep_neg': False,
             'const': K, 'bbconst': BB, 'expect': 'ok', 'tag': 'valid'}
@@ -530,9 +561,15 @@ def gen_case(rng, K, BB, model, cls, z, names, focus=None, focus_unit=None, ntab
     amp_unit = units.get('amplitude')
     if model in TABLES:
         n = rng.randint(2, ntab)
-        pts = sorted({dyf(rng, 1000, 20000, 2) for _ in range(n)})
-        while len(pts) < 2:
-            pts = sorted(set(pts) | {dyf(rng, 1000, 20000, 2)})
+        if wide:
+            pts = [refaa]
+            for _ in range(n - 1):
+                pts.append(pts[-1] * (1 + 10 ** rng.uniform(-4, 0.5)))
+        else:
+            pts = sorted({dyf(rng, 1000, 20000, 2) for _ in range(n)})
+            while len(pts) < 2:
+                pts = sorted(set(pts) | {dyf(rng, 1000, 20000, 2)})
+        cond = max(b / (b - a) for a, b in zip(pts, pts[1:]))
         if rng.random() < 0.2:
             pts = pts[::-1]
         args['points'] = wave_arg(rng, pts, units['points'])
@@ -568,7 +605,7 @@ def gen_case(rng, K, BB, model, cls, z, names, focus=None, focus_unit=None, ntab
             elif n in WIDTHS:
                 args[n] = wave_arg(rng, [width], un)
             elif n == 'x_cutoff':
-                args[n] = wave_arg(rng, [dyf(rng, 2000, 30000, 2)], un)
+                args[n] = wave_arg(rng, [refaa * rng.uniform(0.3, 3) if wide else dyf(rng, 2000, 30000, 2)], un)
             elif n == 'amplitude':
                 if cls == 'source':
                     v = flux_values(rng, un, 1, positive or model in ('ConstFlux1D', 'PowerLawFlux1D'))
@@ -613,6 +650,10 @@ def gen_case(rng, K, BB, model, cls, z, names, focus=None, focus_unit=None, ntab
             grid = [refaa + width * t for t in ts]
         else:
             grid = [refaa * r for r in (0.3, 0.4, 0.5, 0.62, 0.75, 0.87, 0.95, 1.0, 1.08, 1.2, 1.4, 1.7, 2.0, 2.4, 2.8, 3.2)]
+    if model not in TABLES and any(n in WIDTHS for n in names):
+        cond = max(1.0, refaa / width)
+    case['cond'] = cond
+    case['regime'] = 'wide' if wide else 'optical'
     # keyword order: as Python callers would write them, shuffled
     order = list(names)
     rng.shuffle(order)
@@ -799,7 +840,8 @@ def execute(rep, cases):
     for c, o, m in zip(cases, impl, mout):
         ok = c['expect'] == 'ok'
         units = sorted({a.get('u') or 'number' for _, a in c['args']})
-        tags = ['class:' + c['cls'], 'model:' + c['model'], 'z:' + c['z'], 'expect:' + c['expect']] + ['unit:' + u for u in units]
+        tags = ['class:' + c['cls'], 'model:' + c['model'], 'z:' + c['z'], 'expect:' + c['expect'],
+                'regime:' + c.get('regime', '?')] + ['unit:' + u for u in units]
         if not ok:
             tags.append('reject:' + c['tag'].split(':')[0])
         rep.count({k: v for k, v in c.items() if k not in ('const', 'bbconst', '_model_out')},
@@ -819,9 +861,14 @@ RULE = ('SourceSpectrum (z in {0, 1/2, 3}) and SpectralElement constructors on e
         'built (Box1D, Trapezoid1D, Gaussian1D, GaussianAbsorption1D, GaussianFlux1D in its four keyword variants, Lorentz1D, '
         'RickerWavelet1D, MexicanHat1D, PowerLaw1D, BrokenPowerLaw1D, ExponentialCutoffPowerLaw1D, LogParabola1D, Const1D, '
         'ConstFlux1D, PowerLawFlux1D, Empirical1D, ExtinctionModel1D, BlackBody1D, BlackBodyNorm1D). Exhaustive: each parameter '
-        'in each compatible unit (number, AA, nm, micron, m, Hz, THz, 1/micron, eV; PHOTLAM, FLAM, FNU, Jy, mJy, PHOTNU, ABmag, '
+        'in each compatible unit (number, 22 wavelength / frequency / wavenumber / energy units; PHOTLAM, FLAM, FNU, Jy, mJy, PHOTNU, ABmag, '
         'STmag; dimensionless, percent; K, mK, kK; erg/s/cm2, W/m2) with the other parameters in random units; then random '
-        'requests; reference wavelengths 1000-20000 A (dyadic), widths 10 A .. ref/6, linear fluxes log-uniform over 24 decades '
+        'requests. Wavelength-like values: 40% optical (reference 1000-20000 A dyadic, widths 10 A .. ref/6), 60% anywhere from '
+        'gamma rays to radio (reference log-uniform 1e-3 .. 1e9 A, widths log-uniform from 1e-9 of the reference up to the '
+        'reference; table knots with relative spacing 1e-4 .. 3), each given in every unit the spectral equivalence accepts '
+        '(AA pm nm micron mm cm m; Hz kHz MHz GHz THz PHz; 1/micron 1/cm 1/m 1/AA; eV keV MeV erg J). STORED parameters are '
+        'compared with the exact rational conversion at rtol 1e-12; samples at rtol 1e-9 + 1e-14 x (reference/width). '
+        'Linear fluxes log-uniform over 24 decades '
         '(8% negative), magnitudes in [-5, 30] (power laws in magnitudes: |alpha| <= 1/2), tables of 2-6 (thorough 2-24) points in either order; 16 sample wavelengths '
         'around the feature scaled by 1+z (box: never within 0.1 width of a jump). Invalid requests: count / mag(OB) / mag(VEGA) / '
         'non-flux amplitudes on a source, a non-PHOTLAM flux amplitude for Const1D (no reference wavelength), unsupported and non-model classes, n_models != 1, dimensioned throughput, non-spectral '
